@@ -37,7 +37,13 @@ func (c *Cluster) PlanFor(spec RequestSpec) (*Planned, error) {
 		}
 		return 0, fmt.Errorf("no live feed")
 	}
-	details, undo, err := pipeline.BuildRequestDetails(context.Background(), req, final, nil, func() (uint64, error) { return c.Head, nil }, c.SegSize)
+	resolver := func(ctx context.Context, cur *bstream.Cursor) (bstream.BlockRef, bstream.BlockRef, error) {
+		if spec.CursorResolver != nil {
+			return spec.CursorResolver(ctx, cur)
+		}
+		return cur.Block, bstream.NewBlockRef(BlockID(c.Head), c.Head), nil
+	}
+	details, undo, err := pipeline.BuildRequestDetails(context.Background(), req, final, resolver, func() (uint64, error) { return c.Head, nil }, c.SegSize)
 	if err != nil {
 		return nil, err
 	}
